@@ -28,6 +28,11 @@ def run_compress_check(prop, tier):
     mc_runs.append({"cfg": "CompressMC_NEG_noawait.cfg", "violated": neg["violated"], "expected_violation": True,
                     "note": "the hand-off without waiting for the in-flight temp write (pinned tree before the F4 repair) loses the last chunk under the schedule BgWrite-after-Copy"})
     log("MC Compress: %d distinct states %s; negative config rejected as expected" % (states, "ok" if res["ok"] else res["violated"]))
+    if prop == "C01":
+        # the root composition: compress -> archive (writer layout) -> clone onto every prior output / seed of the bound -> requests
+        st2, tr2 = bita_composition(out, "writer", tier, mc_runs)
+        states += st2
+        trans += tr2
     # scenarios: source shapes of the model's bound + seeded sample of the class product (TLC RandomElement, -seed)
     scen = os.path.join(workdir, "scen.ndjson")
     md = os.path.join(workdir, "tlcgen")
